@@ -279,6 +279,31 @@ func c11(args []string) error {
 			}
 		}
 	}
+	// Circles: Rect() is the tight box of the positions of the polygon approximation, whatever the number of steps, and Center() the centre
+	for k := 0; k < 300; k++ {
+		steps := []int{3, 5, 6, 7, 12, 63, 64, 100}[k%8]
+		ctr := geometry.Point{X: math.Round((rng.Float64()*300-150)*100) / 100, Y: math.Round((rng.Float64()*120-60)*100) / 100}
+		c := geojson.NewCircle(ctr, math.Pow(10, rng.Float64()*5+1), steps)
+		poly, ok := c.Polygon().(*geojson.Polygon)
+		if !ok {
+			continue
+		}
+		ext := poly.Base().Exterior
+		minx, miny, maxx, maxy := math.Inf(1), math.Inf(1), math.Inf(-1), math.Inf(-1)
+		for i := 0; i < ext.NumPoints(); i++ {
+			p := ext.PointAt(i)
+			minx, miny, maxx, maxy = math.Min(minx, p.X), math.Min(miny, p.Y), math.Max(maxx, p.X), math.Max(maxy, p.Y)
+		}
+		floatCases++
+		r := c.Rect()
+		if r.Min.X != minx || r.Min.Y != miny || r.Max.X != maxx || r.Max.Y != maxy || c.Center() != ctr {
+			floatMism++
+			if floatMism <= 50 {
+				fl.Emit(obj{"kind": fmt.Sprintf("Circle(%d steps, %v m)", steps, c.Meters()), "points": [][]float64{{ctr.X, ctr.Y}}, "rect": []float64{r.Min.X, r.Min.Y, r.Max.X, r.Max.Y},
+					"center": []float64{c.Center().X, c.Center().Y}, "exact_center": []float64{minx, miny, maxx, maxy}})
+			}
+		}
+	}
 	printJSON(obj{"rows": rows, "evaluations": evals, "mismatches": mism, "recorded": recorded, "events": ev.N, "parsed_ok": parsed, "float_cases": floatCases, "float_mismatches": floatMism})
 	return nil
 }
